@@ -1,5 +1,10 @@
 ID = 'C17'
-UNITS = {'args': dict(wrap='wrap.cc', shim=True, new_block=64, cxxflags=['-DVERIF_UMAP_CAP=6'])}
+UNITS = {'args': dict(wrap='wrap.cc', shim=True, new_block=64, cxxflags=['-DVERIF_UMAP_CAP=6']),
+         # split_args: vector<string> of k words needs 32*pow2ceil(k) bytes from operator new
+         'split64': dict(wrap='wrap.cc', shim=True, new_block=64, cxxflags=['-DVERIF_UMAP_CAP=6'], ir2c_flags=['--ptrdiff', '--flat-unions'], gen_defs=['VERIF_NEW_U64']),
+         'split128': dict(wrap='wrap.cc', shim=True, new_block=128, cxxflags=['-DVERIF_UMAP_CAP=6'], ir2c_flags=['--ptrdiff', '--flat-unions'], gen_defs=['VERIF_NEW_U64'])}
+UNITS['cls'] = dict(wrap='wrap.cc', shim=True, new_block=320, cxxflags=['-DVERIF_UMAP_CAP=4'], ir2c_flags=['--ptrdiff', '--flat-unions'], gen_defs=['VERIF_NEW_U64'])
+FAST = []
 BOUNDS = ''
 STUBS = []
 OUTSIDE = []
@@ -19,6 +24,12 @@ def queries(tier):
                            tv_runs=100, desc='parse_float<%s> on a %d-byte text: bytes, strtod value (all bit patterns) and end pointer symbolic' % ('double' if d else 'float', L),
                            bounds='text length %d' % L))
     for L in ([0, 1, 2, 3] if tier == 'quick' else [0, 1, 2, 3, 4, 5]):
-        qs.append(dict(name='split_len%d' % L, unit='args', harness='h_split.c', defs={'LEN': L}, unwind=2 * L + 8, timeout=900, mem_gb=6,
+        qs.append(dict(name='split_len%d' % L, unit='split64' if L <= 3 else 'split128', harness='h_split.c', defs={'LEN': L}, unwind=L + 3, timeout=900, mem_gb=6, flags=FAST,
                        tv_runs=300, desc='split_args on %d symbolic bytes vs reference shell-style tokenizer' % L, bounds='input length %d, all byte values but NUL' % L))
+    cells = [(1, (l,)) for l in range(4)] + [(2, (a, b)) for a in range(4) for b in range(4)]
+    for nt, ls in cells:
+        d = {'NTOK': nt}
+        for i, l in enumerate(ls): d['L%d' % i] = l
+        qs.append(dict(name='classify_' + '_'.join(map(str, ls)), unit='cls', harness='h_classify.c', defs=d, unwind=8, timeout=900, mem_gb=8, flags=FAST,
+                       tv_runs=150, desc='classification of %d tokens of lengths %s' % (nt, ls), bounds='token lengths %s, all byte values but NUL' % (ls,)))
     return qs
